@@ -56,3 +56,10 @@ Theorem C12_foreign_senders : forall c, ucase_wf c = true -> c12_foreign_ok c (u
 Proof. exact c12_foreign. Qed.
 Check C12_foreign_senders : forall c, ucase_wf c = true -> c12_foreign_ok c (unit_model c) = true.
 Print Assumptions C12_foreign_senders.
+
+(* the engine state published for an EEC1 frame is the reference table of starter mode and speed - in particular
+   reserved and error starter modes mean "not running", whatever the speed *)
+Theorem C12_engine_state_table : forall c, ucase_wf c = true -> c12_state_ok c (unit_model c) = true.
+Proof. exact c12_state. Qed.
+Check C12_engine_state_table : forall c, ucase_wf c = true -> c12_state_ok c (unit_model c) = true.
+Print Assumptions C12_engine_state_table.
